@@ -172,7 +172,14 @@ class PureFockState(State):
 
         indices = fock_to_binary_indices(self.d)
 
-        state_vector_in_binary_ordering = self._state_vector[indices]
+        # NOTE: With `cutoff <= d` the state vector is shorter than `2**d`; the missing
+        # amplitudes (particle numbers at or above the cutoff) are zero.
+        padding = connector.np.zeros(
+            len(indices) - len(self._state_vector), dtype=self._state_vector.dtype
+        )
+        full_state_vector = connector.np.concatenate([self._state_vector, padding])
+
+        state_vector_in_binary_ordering = full_state_vector[indices]
 
         # TODO: This algorithm can be made much more efficient by avoiding using the
         # Fock space representation of the Majorana operators.
